@@ -90,6 +90,14 @@ fn kind_is_send(kind: Kind) -> bool {
 struct Mover(Box<dyn DynGen>);
 unsafe impl Send for Mover {}
 
+fn inst_name(inst: &Inst) -> String {
+    if inst.shared_scratch && matches!(inst.kind, Kind::Hc128 | Kind::Isaac | Kind::Isaac64) {
+        format!("the public core of {}, driven through the scratch block all cores of its type share", inst.kind.name())
+    } else {
+        inst.kind.name().to_string()
+    }
+}
+
 fn build_inst(inst: &Inst) -> Result<Box<dyn DynGen>, String> {
     if inst.kind == Kind::Jitter {
         let mut g = build_jitter(Arc::new(inst.clock.clone().expect("clock")));
@@ -99,6 +107,22 @@ fn build_inst(inst: &Inst) -> Result<Box<dyn DynGen>, String> {
             }
         }
         return Ok(g);
+    }
+    if inst.shared_scratch {
+        let ck = match inst.kind {
+            Kind::Hc128 => Some(crate::gens::CoreKind::Hc128Core),
+            Kind::Isaac => Some(crate::gens::CoreKind::IsaacCore),
+            Kind::Isaac64 => Some(crate::gens::CoreKind::Isaac64Core),
+            _ => None,
+        };
+        if let Some(ck) = ck {
+            return match crate::gens::construct_core(ck, inst.seed.as_ref().expect("seed")) {
+                Ok(crate::gens::CoreConstructed::Ok(c, _)) => Ok(Box::new(crate::gens::SharedCoreGen { core: c, queue: Default::default() })),
+                Ok(crate::gens::CoreConstructed::Err(..)) => Err("source_error".into()),
+                Err(SutFail::Panic(m)) => Err(format!("SUT_PANIC[construct]: {}", m)),
+                Err(SutFail::ClockAbort) => Err("clock_abort".into()),
+            };
+        }
     }
     match construct(inst.kind, inst.seed.as_ref().expect("seed")) {
         Ok(Constructed::Ok(g, _)) => Ok(g),
@@ -605,7 +629,7 @@ fn gen_inst(rng: &mut Prng) -> Inst {
                 *r = t0.wrapping_add(r.wrapping_sub(t0).wrapping_mul(q));
             }
         }
-        return Inst { kind: Kind::Jitter, seed: None, clock: Some(clock), rounds, ops };
+        return Inst { kind: Kind::Jitter, seed: None, clock: Some(clock), rounds, ops, shared_scratch: false };
     }
     let kind = pick_det_kind(rng);
     // seeding routes that go through shared-looking helpers are over-weighted
@@ -633,7 +657,8 @@ fn gen_inst(rng: &mut Prng) -> Inst {
         let at = rng.below(ops.len() as u64 + 1) as usize;
         ops.insert(at, Op::Fork);
     }
-    Inst { kind, seed: Some(seed), clock: None, rounds: None, ops }
+    let shared_scratch = matches!(kind, Kind::Hc128 | Kind::Isaac | Kind::Isaac64) && rng.chance(1, 2);
+    Inst { kind, seed: Some(seed), clock: None, rounds: None, ops, shared_scratch }
 }
 
 impl Scenario for C19 {
@@ -668,6 +693,47 @@ impl Scenario for C19 {
             spec.aux = vec![800, 4, rng.u64()];
             return spec;
         }
+        if rng.chance(1, 14) {
+            // scratch family: two to four public block CORES of one type, all driven through the one scratch
+            // block their owner keeps for that type; each produces several blocks, interleaved block by
+            // block - what another core left in the out-parameter must not matter
+            spec.variant = "schedule".into();
+            let kind = *rng.pick(&[Kind::Isaac, Kind::Isaac64, Kind::Hc128]);
+            let block_bytes: u32 = match kind {
+                Kind::Isaac => 1024,
+                Kind::Isaac64 => 2048,
+                _ => 64,
+            };
+            let n = rng.range(2, 4) as usize;
+            let mut insts: Vec<Inst> = Vec::new();
+            for _ in 0..n {
+                let mut ops = Vec::new();
+                for _ in 0..rng.range(2, 5) {
+                    ops.push(match rng.below(4) {
+                        0 => Op::Fill(block_bytes),
+                        1 => Op::Fill(block_bytes + rng.below(40) as u32),
+                        2 => Op::Fill(block_bytes / 2 + rng.below(9) as u32),
+                        _ => Op::Fill(2 * block_bytes + rng.below(9) as u32),
+                    });
+                    if rng.chance(1, 2) {
+                        ops.push(if rng.chance(1, 2) { Op::U32 } else { Op::U64 });
+                    }
+                }
+                let seed = if !insts.is_empty() && rng.chance(1, 3) { insts[0_usize].seed.clone().unwrap() } else { gen_seed(rng, kind) };
+                insts.push(Inst { kind, seed: Some(seed), clock: None, rounds: None, ops, shared_scratch: true });
+            }
+            spec.threads = rng.range(1, 3) as u8;
+            let total: usize = insts.iter().map(|i: &Inst| i.ops.len()).sum();
+            let mut sched = Vec::new();
+            for k in 0..total + n {
+                let i = if rng.chance(2, 3) { (k % n) as u8 } else { rng.below(n as u64) as u8 };
+                sched.push((i, rng.below(spec.threads as u64) as u8));
+            }
+            // (instances whose operations are not used up by the schedule finish in order afterwards)
+            spec.sched = sched;
+            spec.insts = insts;
+            return spec;
+        }
         if rng.chance(1, 12) {
             // jump family: three to five instances of ONE jump-capable type, seeds drawn from a pool of two,
             // the same short history and then jump() or long_jump() - same-state siblings doing different
@@ -689,7 +755,7 @@ impl Scenario for C19 {
                     ops.push(if rng.chance(1, 2) { Op::Jump } else { Op::LongJump });
                     ops.push(Op::U64);
                 }
-                insts.push(Inst { kind, seed: Some(rng.pick(&seeds).clone()), clock: None, rounds: None, ops });
+                insts.push(Inst { kind, seed: Some(rng.pick(&seeds).clone()), clock: None, rounds: None, ops, shared_scratch: false });
             }
             spec.threads = rng.range(1, 3) as u8;
             // whole instances one after the other, in a random order, now and then interleaved op by op
@@ -941,7 +1007,7 @@ impl Scenario for C19 {
                     return viol(
                         "C19/depends_on_other_instances",
                         format!("{}:schedule", spec.insts[i].kind.name()),
-                        format!("instance {} ({}): outputs under the interleaved schedule ({} instances, {} threads, {} switches, {} migrations) differ from the same instance run alone in a fresh process: {:?} vs {:?}", i, spec.insts[i].kind.name(), n, spec.threads, switches, migrations, a, b),
+                        format!("instance {} ({}): outputs under the interleaved schedule ({} instances, {} threads, {} switches, {} migrations) differ from the same instance run alone in a fresh process: {:?} vs {:?}", i, inst_name(&spec.insts[i]), n, spec.threads, switches, migrations, a, b),
                     );
                 }
             }
@@ -959,7 +1025,7 @@ impl Scenario for C19 {
                         return viol(
                             "C19/depends_on_other_instances",
                             format!("{}:{}", spec.insts[i].kind.name(), mode),
-                            format!("instance {} ({}): outputs under the interleaved schedule differ from {} composition in one process", i, spec.insts[i].kind.name(), if mode == "seq" { "sequential" } else { "reverse-sequential" }),
+                            format!("instance {} ({}): outputs under the interleaved schedule differ from {} composition in one process", i, inst_name(&spec.insts[i]), if mode == "seq" { "sequential" } else { "reverse-sequential" }),
                         );
                     }
                 }
@@ -969,7 +1035,7 @@ impl Scenario for C19 {
     }
 
     fn rule(&self) -> String {
-        "Static: Send and Sync of the 19 deterministic generator types, the 3 cores, JitterRng<fn() -> u64>, evaluated at compile time by inherent-const shadowing. Dynamic, per run: 2..6 generator instances of mixed types (deterministic generators through every seeding route with zero seeds / seed_from_u64(0) over-weighted, duplicates of the same type and seed, JitterRng instances each over its own scripted clock), each with its own history of next_u32/next_u64/fill_bytes/jump/clone (JitterRng instances sometimes start with test_timer on their own clock), and 1..4 worker threads. The seeded scheduler repeatedly picks (instance, thread): ownership of the instance is MOVED to that OS thread, which performs exactly one operation and hands the baton back (never more than one runnable thread, so the interleaving replays exactly); schedule styles: round robin, uniform, bursts; thread migrations; disturbances between steps (unrelated generators created/seeded/dropped incl. the zero-seed remap and SplitMix64 expansion, block generators run across a refill, JitterRng::new() which touches the process-wide JITTER_ROUNDS cache). The interleaved run executes in its own fresh process; every instance is also run ALONE in its own fresh process, and all instances under sequential and reverse-sequential composition in one further process each; per-instance output digests must be identical in all of them. distinct_nontrivial = distinct (instance, thread) sequences with at least one interleave and one migration (plus one signature per type of the static table). Further: JitterRng instances are cloned inside schedules; a disturbance clones/clone_froms/formats an unrelated JitterRng; duplicates of a JitterRng instance get a private clock 1..64 ticks ahead of / behind the original's; one JitterRng instance in three counts in steps of q; one run in ten consists of JitterRng instances only; (nested) the same operations of one JitterRng run once on their own and once each from inside a timer reading of another JitterRng's collection on the same thread.".into()
+        "Static: Send and Sync of the 19 deterministic generator types, the 3 cores, JitterRng<fn() -> u64>, evaluated at compile time by inherent-const shadowing. Dynamic, per run: 2..6 generator instances of mixed types (deterministic generators through every seeding route with zero seeds / seed_from_u64(0) over-weighted, duplicates of the same type and seed, JitterRng instances each over its own scripted clock), each with its own history of next_u32/next_u64/fill_bytes/jump/clone (JitterRng instances sometimes start with test_timer on their own clock), and 1..4 worker threads. The seeded scheduler repeatedly picks (instance, thread): ownership of the instance is MOVED to that OS thread, which performs exactly one operation and hands the baton back (never more than one runnable thread, so the interleaving replays exactly); schedule styles: round robin, uniform, bursts; thread migrations; disturbances between steps (unrelated generators created/seeded/dropped incl. the zero-seed remap and SplitMix64 expansion, block generators run across a refill, JitterRng::new() which touches the process-wide JITTER_ROUNDS cache). The interleaved run executes in its own fresh process; every instance is also run ALONE in its own fresh process, and all instances under sequential and reverse-sequential composition in one further process each; per-instance output digests must be identical in all of them. distinct_nontrivial = distinct (instance, thread) sequences with at least one interleave and one migration (plus one signature per type of the static table). Further: block generators also take part as their public CORE driven through one scratch block shared by all cores of that type (scratch family: 2..4 such cores, several blocks each, interleaved); JitterRng instances are cloned inside schedules; a disturbance clones/clone_froms/formats an unrelated JitterRng; duplicates of a JitterRng instance get a private clock 1..64 ticks ahead of / behind the original's; one JitterRng instance in three counts in steps of q; one run in ten consists of JitterRng instances only; (nested) the same operations of one JitterRng run once on their own and once each from inside a timer reading of another JitterRng's collection on the same thread.".into()
     }
     fn assumptions(&self) -> Vec<String> {
         vec![
